@@ -312,6 +312,50 @@ Proof.
     destruct Hin as (vd' & f' & E1 & _). discriminate.
 Qed.
 
+(** The generated [match] is exhaustive: whenever no arm matches the active variant, a
+    variant was dropped and synstructure has added the catch-all [_ => {}] arm. *)
+Lemma filter_length_le' (A : Type) (f : A -> bool) (l : list A) :
+  length (filter f l) <= length l.
+Proof. induction l as [|a t IH]; simpl; auto. destruct (f a); simpl; lia. Qed.
+
+Lemma filter_length_all (A : Type) (f : A -> bool) (l : list A) :
+  length (filter f l) = length l -> forall x, In x l -> f x = true.
+Proof.
+  induction l as [|a t IH]; simpl; intros Hlen x Hin; [contradiction|].
+  pose proof (filter_length_le' f t) as Hle.
+  destruct (f a) eqn:Hfa; simpl in Hlen.
+  - destruct Hin as [<-|Hin]; auto.
+  - lia.
+Qed.
+
+Lemma indexed_from_In (A : Type) (l : list A) : forall s i x,
+  nth_error l i = Some x -> In (s + i, x) (indexed_from s l).
+Proof.
+  induction l as [|a t IH]; intros s i x Hn; destruct i; simpl in *; try discriminate.
+  - injection Hn as <-. rewrite Nat.add_0_r. now left.
+  - right. rewrite <- Nat.add_succ_comm. now apply IH.
+Qed.
+
+Lemma indexed_from_length (A : Type) (l : list A) : forall s, length (indexed_from s l) = length l.
+Proof. induction l; simpl; auto. Qed.
+
+Theorem catch_all_arm_present : forall d i vd,
+  nth_error (variants d) i = Some vd ->
+  find (fun arm => fst arm =? i) (arms d) = None ->
+  omitted_variants d = true.
+Proof.
+  intros d i vd Hvd Hfind. unfold arms in Hfind.
+  rewrite (find_arm (variant_kept d) kept_bindings (variants d) 0 i) in Hfind.
+  replace (i <? 0) with false in Hfind by (symmetry; apply Nat.ltb_ge; lia).
+  rewrite Nat.sub_0_r, Hvd in Hfind.
+  destruct (variant_kept d vd) eqn:Hk; [discriminate|].
+  unfold omitted_variants, arms. rewrite map_length.
+  apply negb_true_iff, Nat.eqb_neq. intros Hlen.
+  rewrite <- (indexed_from_length (variants d) 0) in Hlen.
+  pose proof (filter_length_all _ _ Hlen (0 + i, vd) (indexed_from_In _ 0 _ Hvd)) as Hall.
+  simpl in Hall. congruence.
+Qed.
+
 (** An ignored variant, and a field of an ignored variant, is never traced. *)
 Theorem C18_ignored_variant : forall d tv vd,
   nth_error (variants d) (tv_variant tv) = Some vd -> variant_ignored d vd = true ->
